@@ -81,6 +81,8 @@ impl Database {
     }
 
     pub(crate) fn reset(&self) {
+        #[cfg(jiff_verif)]
+        crate::verif::acquire_write(&self.zones, "cc.reset.zones");
         let mut zones = self.zones.write().unwrap();
         if let Some(ref names) = self.names {
             names.reset();
@@ -102,6 +104,8 @@ impl Database {
         // The fast path is when the query matches a pre-existing unexpired
         // time zone.
         {
+            #[cfg(jiff_verif)]
+            crate::verif::acquire_read(&self.zones, "cc.get.zones_read");
             let zones = self.zones.read().unwrap();
             if let Some(czone) = zones.get(query) {
                 if !czone.is_expired() {
@@ -113,6 +117,8 @@ impl Database {
                         czone.expiration,
                         czone.last_modified,
                     );
+                    #[cfg(jiff_verif)]
+                    crate::verif::point("cc.get.fast_hit");
                     return Some(czone.tz.clone());
                 }
             }
@@ -136,6 +142,8 @@ impl Database {
         // that avoids doing I/O while holding a lock, but it seems a lot more
         // complicated. (And what happens if the I/O becomes outdated by the
         // time you acquire the lock?)
+        #[cfg(jiff_verif)]
+        crate::verif::acquire_write(&self.zones, "cc.get.zones_write");
         let mut zones = self.zones.write().unwrap();
         let ttl = zones.ttl;
         match zones.get_zone_index(query) {
@@ -144,9 +152,13 @@ impl Database {
                 if czone.revalidate(path, ttl) {
                     // Metadata on the file didn't change, so we assume the
                     // file hasn't either.
+                    #[cfg(jiff_verif)]
+                    crate::verif::point("cc.get.revalidate_ok");
                     return Some(czone.tz.clone());
                 }
                 // Revalidation failed. Re-read the TZif data.
+                #[cfg(jiff_verif)]
+                crate::verif::point("cc.get.reload");
                 let (scratch1, scratch2) = zones.scratch();
                 let czone = match CachedTimeZone::new(
                     path, query, ttl, scratch1, scratch2,
@@ -167,6 +179,8 @@ impl Database {
                 Some(tz)
             }
             Err(i) => {
+                #[cfg(jiff_verif)]
+                crate::verif::point("cc.get.load");
                 let (scratch1, scratch2) = zones.scratch();
                 let czone = match CachedTimeZone::new(
                     path, query, ttl, scratch1, scratch2,
@@ -282,11 +296,15 @@ impl CachedTimeZone {
         scratch1: &mut Vec<u8>,
         scratch2: &mut Vec<u8>,
     ) -> Result<Option<CachedTimeZone>, Error> {
+        #[cfg(jiff_verif)]
+        crate::verif::point("cc.new.open");
         let file = File::open(path).map_err(|e| Error::io(e).path(path))?;
         let db = ConcatenatedTzif::open(&file)?;
         let Some(tz) = db.get(query, scratch1, scratch2)? else {
             return Ok(None);
         };
+        #[cfg(jiff_verif)]
+        crate::verif::point("cc.new.stat");
         let last_modified = util::fs::last_modified_from_file(path, &file);
         let expiration = Expiration::after(ttl);
         Ok(Some(CachedTimeZone { tz, expiration, last_modified }))
@@ -331,6 +349,8 @@ impl CachedTimeZone {
             );
             return false;
         };
+        #[cfg(jiff_verif)]
+        crate::verif::point("cc.revalidate.stat");
         let Some(new_last_modified) = util::fs::last_modified_from_path(path)
         else {
             trace!(
@@ -433,12 +453,16 @@ impl Names {
     /// Returns all available time zone names after attempting a refresh of
     /// the underlying data if it's stale.
     fn available(&self, path: &Path) -> Vec<String> {
+        #[cfg(jiff_verif)]
+        crate::verif::acquire_write(&self.inner, "cc.names.available");
         let mut inner = self.inner.write().unwrap();
         inner.attempt_refresh(path);
         inner.available()
     }
 
     fn reset(&self) {
+        #[cfg(jiff_verif)]
+        crate::verif::acquire_write(&self.inner, "cc.names.reset");
         self.inner.write().unwrap().reset();
     }
 }
@@ -538,6 +562,8 @@ fn read_names_and_version(
     path: &Path,
     scratch: &mut Vec<u8>,
 ) -> Result<(Vec<Arc<str>>, ArrayStr<5>), Error> {
+    #[cfg(jiff_verif)]
+    crate::verif::point("cc.names.open");
     let file = File::open(path).map_err(|e| Error::io(e).path(path))?;
     let db = ConcatenatedTzif::open(file)?;
     let names: Vec<Arc<str>> =
